@@ -332,13 +332,59 @@ pub fn check(thorough: bool, _seed: u64) -> Check {
         classes: vec![],
         bounds: json!({"types": "Piecewise<Poly0>, Piecewise<Poly3>", "segments": if thorough {"every n from 5 to 520"} else {"every n from 5 to 300"}, "formats": FORMATS}),
     };
+    // a good document read after failed reads on the same thread: five reads of a truncated CBOR / JSON document of 2^20 segments
+    // (every one fails), then ordinary round trips - an error path must not leave anything behind (budgets, scratch state)
+    let after_failures = Phase {
+        name: "round-trips-after-failed-reads",
+        units: 2,
+        split: 0,
+        body: Box::new(move |unit, cx| {
+            cx.nontrivial();
+            cx.evals(8);
+            if cx.sampling() {
+                cx.sample(json!({"failed_reads": 5, "segments_in_the_truncated_document": 1 << 20, "format": if unit == 0 { "cbor" } else { "json" }}));
+            }
+            let big: Piecewise<Poly0> = Piecewise { segments: (0..(1usize << 20)).map(|i| Segment { end: i as f64, poly: Poly0(0.5) }).collect() };
+            let failed = guard(|| {
+                let mut n = 0;
+                if unit == 0 {
+                    let mut bytes = serde_cbor::to_vec(&big).unwrap_or_default();
+                    bytes.truncate(bytes.len() - 3);
+                    for _ in 0..5 {
+                        n += serde_cbor::from_slice::<Piecewise<Poly0>>(&bytes).is_err() as usize;
+                    }
+                } else {
+                    let mut txt = serde_json::to_string(&big).unwrap_or_default();
+                    txt.truncate(txt.len() - 3);
+                    for _ in 0..5 {
+                        n += serde_json::from_str::<Piecewise<Poly0>>(&txt).is_err() as usize;
+                    }
+                }
+                n
+            });
+            drop(big);
+            if failed != Ok(5) {
+                return Err(Fail::new("reading a truncated document did not fail cleanly", json!({"failed_reads": format!("{:?}", failed)})));
+            }
+            let nums: Vec<f64> = vec![0.5, 1.5, -2.25, 2.0, 3.0, 0.125];
+            for fmt in 0..FORMATS.len() {
+                let v = pw_from_nums::<Poly1>(&nums);
+                let place = pw_from_nums::<Poly1>(&other_nums(&nums));
+                let r = guard(|| trip_in(&v, fmt, place));
+                finish(&v, r, &nums, |b| pw_nums(b), fmt).map_err(|(what, d)| Fail::new(format!("after five failed reads of a truncated document on the same thread: {what}"), json!({"format": FORMATS[fmt], "observation": d})))?;
+            }
+            Ok(())
+        }),
+        classes: vec![],
+        bounds: json!({"history": "five failed reads of a truncated document of 2^20 Poly0 segments (CBOR resp. JSON), then a 2-segment Poly1 round trip in every format, all on one thread"}),
+    };
     let mut extra = serde_json::Map::new();
     extra.insert("serde_types".into(), json!(names));
     Check {
         id: "C18",
         rule: "choice tree: (type, format) unit x number contents; each leaf serializes one real value and deserializes it again; non-trivial = contents with a zero, subnormal, extreme or infinite number".into(),
         assumptions: vec!["serde_json (feature float_roundtrip), serde_cbor and borsh are the environment the property is stated against".into()],
-        phases: vec![ph, many, grids, every],
+        phases: vec![ph, many, grids, every, after_failures],
         extra,
         controls: vec![("bit comparison distinguishes -0.0 from 0.0", Box::new(|| if all_bits_eq(&[0.0], &[-0.0]) { Err("not live".into()) } else { Ok(()) }))],
     }
